@@ -286,6 +286,14 @@ def eval_bigint(L, case):
         exp = (a << amt) & mask if op == "shift_left" else a >> amt
         if val(out) != exp:
             msgs.append("%s<%d>(%d): value %x expected %x" % (op, w, amt, val(out), exp))
+        # returned word: the part of the shifted-out bits that crosses the last word boundary
+        wo, bo = amt // word, amt % word
+        if op == "shift_left":
+            exp_rv = (a >> (w - amt)) & ((1 << bo) - 1) if amt else 0
+        else:
+            exp_rv = (((a >> (word * wo)) & ((1 << bo) - 1)) << (word - bo)) & ((1 << word) - 1) if bo else 0
+        if rv != exp_rv:
+            msgs.append("%s<%d>(%d): returned word %x expected %x" % (op, w, amt, rv, exp_rv))
     elif op == "cmp":
         c = L.call(pre + "compare", L.bi(a, w), L.bi(b, w))
         e = L.call(pre + "equal", L.bi(a, w), L.bi(b, w))
